@@ -461,3 +461,71 @@ def logging_inert(chk, rule: str, rels=None):
                                 f"where the lazy `%`-style arguments it replaces were harmless")
                         break
     chk.ok(rule, f"{'package' if rels is None else ', '.join(sorted(rels))} | logging statements are inert", "canopen/", f"{n_calls} logging calls scanned")
+
+
+def pdo_lookup(chk, rule: str):
+    """PdoMap item access designates variables of the *current* mapping, the first one in map order for an object index or a
+    name that occurs more than once (several sub-objects of one index are a common mapping)."""
+    repo, folder = ctx(chk)
+    cls = repo.cls(PB, "PdoMap", f"{chk.prop}.{rule}")
+    gi = cls.methods.get("__getitem__")
+    if gi is None:
+        chk.unk(rule, f"{PB}:PdoMap.__getitem__", f"{PB}:{cls.node.lineno}", "no __getitem__")
+        return
+    search, todo = {"__getitem__": gi}, [gi]
+    while todo:
+        cur = todo.pop()
+        for c in ast.walk(cur.node):
+            if isinstance(c, ast.Call) and isinstance(c.func, ast.Attribute) and dotted(c.func.value) == "self":
+                nm = c.func.attr
+                cand = [k for k in cls.methods if k == nm or k == f"_PdoMap{nm}" or nm == f"_PdoMap{k}"]
+                for k in cand:
+                    if k not in search:
+                        search[k] = cls.methods[k]
+                        todo.append(cls.methods[k])
+    for m in search.values():
+        chk.saw(m)
+    ini = cls.methods.get("__init__")
+    containers = set()
+    if ini is not None:
+        for n in own_nodes(ini.node):
+            if isinstance(n, ast.Assign) and isinstance(n.targets[0], ast.Attribute) and dotted(n.targets[0].value) == "self" and _is_mutable_value(n.value):
+                containers.add(n.targets[0].attr)
+    secondary = set()
+    for m in search.values():
+        for x in ast.walk(m.node):
+            if isinstance(x, ast.Attribute) and dotted(x.value) == "self" and x.attr in containers and x.attr != "map":
+                secondary.add(x.attr)
+    # (i) secondary indexes follow the map
+    for sec in sorted(secondary):
+        for mname, m in cls.methods.items():
+            if mname == "__init__":
+                continue
+            resets_map = [n for n in own_nodes(m.node) if (isinstance(n, ast.Assign) and any(dotted(t) == "self.map" for t in n.targets))
+                          or (isinstance(n, ast.Expr) and isinstance(n.value, ast.Call) and src(n.value.func) == "self.map.clear")]
+            if not resets_map:
+                continue
+            resets_sec = [n for n in own_nodes(m.node) if (isinstance(n, ast.Assign) and any(dotted(t) == f"self.{sec}" for t in n.targets))
+                          or (isinstance(n, ast.Expr) and isinstance(n.value, ast.Call) and src(n.value.func) == f"self.{sec}.clear")]
+            chk.check(bool(resets_sec), rule, f"{PB}:PdoMap.{mname} | lookup table self.{sec} follows the mapping", m.loc(resets_map[0]),
+                      f"`{src(resets_map[0])[:40]}` starts a new mapping but self.{sec}, which item access reads, keeps the variables of the old one: "
+                      f"after clear()/read() a lookup by name or index returns a variable with the previous offset and length")
+    # (ii) first match in map order
+    n_forms = 0
+    for mname, m in search.items():
+        for lp in [n for n in own_nodes(m.node) if isinstance(n, ast.For) and src(n.iter) == "self.map"]:
+            v = src(lp.target)
+            for r in [x for x in ast.walk(lp) if isinstance(x, ast.Return) and x.value is not None and src(x.value) == v]:
+                n_forms += 1
+        for dc in [n for n in ast.walk(m.node) if isinstance(n, ast.DictComp) and any(src(g.iter) == "self.map" for g in n.generators)]:
+            n_forms += 1
+            chk.bad(rule, f"{PB}:PdoMap.{mname} | item access returns the first match in map order", m.loc(dc),
+                    f"`{src(dc)[:70]}` keeps the LAST variable for a key that occurs more than once; with several sub-objects of one index mapped (0x3004:1, :2, :3) "
+                    f"map[0x3004] designates a different variable than before")
+        for c in [n for n in ast.walk(m.node) if isinstance(n, ast.Call) and dotted(n.func) == "next" and n.args and isinstance(n.args[0], ast.GeneratorExp)
+                  and any(src(g.iter) == "self.map" for g in n.args[0].generators)]:
+            n_forms += 1
+    if not secondary:
+        chk.floor(rule, n_forms, 1, "searches over self.map in PdoMap item access")
+    pos = [n for n in ast.walk(gi.node) if isinstance(n, ast.Subscript) and src(n.value) == "self.map"]
+    chk.check(len(pos) >= 1, rule, f"{PB}:PdoMap.__getitem__ | access by position reads the current map", gi.loc(), "no self.map[<position>] in __getitem__")
